@@ -6,7 +6,7 @@ from .c09 import gen_unknown
 
 PROPERTY = "C02"
 
-KNOBS = ["canonical", "reverse-order", "rotate-order", "unpacked", "split-packed", "pad1", "pad2", "duplicate", "inject-unknown"]
+KNOBS = ["canonical", "reverse-order", "rotate-order", "unpacked", "split-packed", "pad1", "pad2", "pad-max", "duplicate", "inject-unknown"]
 
 
 def _perm(kind, n):
@@ -63,8 +63,8 @@ def h_decode(env):
         for f in s.fields:
             if f.label == "repeated" and f.kind in sw.PACKABLE and f.name in val and len(val[f.name]) >= 1:
                 k.split[f.name] = env.choose("split." + f.name, len(val[f.name]) + 1)
-    elif knob in ("pad1", "pad2"):
-        k.pad = 1 if knob == "pad1" else 2
+    elif knob in ("pad1", "pad2", "pad-max"):
+        k.pad = {"pad1": 1, "pad2": 2, "pad-max": 9}[knob]  # pad-max: value varints grow to the legal maximum of 10 bytes, tags / lengths to 5
     elif knob == "duplicate":
         c = _dup_candidates(cat, val)
         if not c:
@@ -145,6 +145,8 @@ def units(tier):
                 continue
             if tier == "quick" and name.startswith("s1") and knob in ("pad2", "rotate-order"):
                 continue
+            if knob == "pad-max" and not (name.startswith("s2") or " int" in name or " uint" in name or " sint" in name or " bool" in name or " enum" in name):
+                continue
             if knob == "duplicate" and not [f for f in catalogue.get(c).shapes["M"].fields if f.label in ("singular", "optional") and f.kind != "message" and not f.wraps]:
                 continue
             u.append(("decode[%s | %s]" % (name, knob), h_decode, {"cat": c, "knob": knob}))
@@ -156,7 +158,7 @@ BUDGET = {"quick": 240, "thorough": 1200}
 UNIT_PATH_CAP = {"quick": 250, "thorough": 20000}
 BOUNDS = {
     "quick": "catalogue S1 + 6 map shapes + 10 S2 shapes; encode direction: all values within the C01 sizes; decode direction: one knob at a time "
-    "(field permutation, unpacked, packed run split at every point, 1 or 2 padding bytes in every tag/length varint, duplicated singular scalar, "
+    "(field permutation, unpacked, packed run split at every point, 1 or 2 padding bytes in every tag/length/value varint, value varints padded to the 10-byte maximum, duplicated singular scalar, "
     "one injected unknown field at every position); 2-3 oneof members in any order; units capped at 250 paths in quick",
     "thorough": "same, cap 20000 paths per unit",
 }
